@@ -1,7 +1,9 @@
 package main
 
 import (
+	"encoding/json"
 	"fmt"
+	"os"
 	"syscall"
 	"unsafe"
 
@@ -26,12 +28,22 @@ type c20Case struct {
 	K    uint64 `json:"k"`
 	Tail int    `json:"tail_pattern_bits"` // bit j set: key slot j past the slice is >= k
 	Fill uint64 `json:"odd_slot_fill"`
+	// Align: -1 = wherever the allocator puts it; 0..7 = the slice starts Align words past a
+	// 64-byte boundary. Roomy: the slice's capacity extends over the patterned tail (the tree
+	// passes such slices: a node inside its page); otherwise cap == len.
+	Align int  `json:"base_words_past_64B_boundary"`
+	Roomy bool `json:"cap_beyond_len,omitempty"`
 }
 
 func c20Build(c c20Case) (back []uint64, xs []uint64) {
 	// 16 words of patterned tail, then 64 words that are >= every k: a kernel that runs away past
 	// the slice stops inside this allocation (and returns a wrong index) instead of faulting
-	back = make([]uint64, c.L+16+64)
+	back = make([]uint64, c.L+16+64+8)
+	if c.Align >= 0 {
+		at := int(uintptr(unsafe.Pointer(&back[0])) / 8 % 8)
+		back = back[(c.Align-at+8)%8:]
+	}
+	back = back[:c.L+16+64]
 	for i := range back {
 		back[i] = c.Fill // value slots; must never influence the result
 	}
@@ -75,10 +87,33 @@ func c20Build(c c20Case) (back []uint64, xs []uint64) {
 			}
 		}
 	}
+	if c.Roomy {
+		return back, back[:c.L : c.L+16]
+	}
 	return back, back[:c.L:c.L]
 }
 
 func c20(tier string, r *ev.Run, replay string) {
+	if replay != "" {
+		b, err := os.ReadFile(replay)
+		if err != nil {
+			ev.Fatalf("C20 replay: %v", err)
+		}
+		f := struct {
+			Replay c20Case `json:"replay"`
+		}{Replay: c20Case{Align: -1}}
+		if err := json.Unmarshal(b, &f); err != nil {
+			ev.Fatalf("C20 replay: %v", err)
+		}
+		_, xs := c20Build(f.Replay)
+		got, ref := simd.Search(xs, f.Replay.K), simd.Naive(xs, f.Replay.K)
+		fmt.Printf("C20 replay %+v: Search=%d Naive=%d\n", f.Replay, got, ref)
+		if got != ref {
+			r.Violation("C20/other", fmt.Sprintf("simd.Search=%d, Naive=%d for %+v", got, ref, f.Replay), f.Replay)
+		}
+		r.Cov["evaluations"], r.Cov["exhaustive"], r.Cov["replay"] = 1, false, replay
+		return
+	}
 	maxL := 512
 	ks := []uint64{0, 1, 2, 1 << 63, ^uint64(0) - 1, ^uint64(0)}
 	fills := []uint64{^uint64(0)}
@@ -86,7 +121,7 @@ func c20(tier string, r *ev.Run, replay string) {
 		maxL = 1024
 		fills = []uint64{^uint64(0), 0}
 	}
-	var evals, nontriv int64
+	var evals, nontriv, alignEvals int64
 	distinct := map[[3]int]bool{}
 	for _, fill := range fills {
 		for L := 0; L <= maxL; L += 2 {
@@ -100,7 +135,7 @@ func c20(tier string, r *ev.Run, replay string) {
 						if k == 0 && tail != 15 {
 							continue // every slot is >= 0
 						}
-						c := c20Case{L: L, P: p, K: k, Tail: tail, Fill: fill}
+						c := c20Case{L: L, P: p, K: k, Tail: tail, Fill: fill, Align: -1}
 						_, xs := c20Build(c)
 						ref := simd.Naive(xs, k)
 						if int(ref) != p {
@@ -132,6 +167,51 @@ func c20(tier string, r *ev.Run, replay string) {
 			}
 		}
 	}
+	// Second sweep: the same oracle for every placement of the slice relative to a 64-byte line
+	// (8 word offsets) and for both capacity shapes, on lengths that cover several rounds of the
+	// kernel's unrolled loop: the answer may depend on the CONTENTS of xs only.
+	{
+		maxA := 96
+		if tier == "thorough" {
+			maxA = 256
+		}
+		for L := 0; L <= maxA; L += 2 {
+			for _, k := range ks {
+				for p := 0; p <= L/2; p++ {
+					if k == 0 && p > 0 {
+						continue
+					}
+					for _, tail := range []int{0b0000, 0b1111, 0b0101, 0b1010} {
+						if k == 0 && tail != 15 {
+							continue
+						}
+						for al := 0; al < 8; al++ {
+							for _, roomy := range []bool{false, true} {
+								c := c20Case{L: L, P: p, K: k, Tail: tail, Fill: ^uint64(0), Align: al, Roomy: roomy}
+								_, xs := c20Build(c)
+								if L > 0 && int(uintptr(unsafe.Pointer(&xs[0]))/8%8) != al {
+									ev.Fatalf("C20 generator bug: alignment %d not achieved", al)
+								}
+								got := simd.Search(xs, k)
+								evals++
+								alignEvals++
+								if r.NumViolations() > 200 {
+									goto done
+								}
+								if int(got) != p {
+									key := "C20/result-depends-on-placement-or-capacity"
+									if int(got) > L/2 {
+										key = "C20/match-reported-past-len"
+									}
+									r.Violation(key, fmt.Sprintf("simd.Search(len=%d,k=%d)=%d, Naive=%d with the slice %d words past a 64-byte boundary, cap-len=%d (first match %d, tail pattern %04b)", L, k, got, p, al, cap(xs)-len(xs), p, tail), c)
+								}
+							}
+						}
+					}
+				}
+			}
+		}
+	}
 done:
 	// the empty input in its three shapes: nil, empty with a readable base (covered above), and
 	// empty with a base that must not be touched (first byte of an inaccessible page)
@@ -154,11 +234,12 @@ done:
 			}()
 		}
 	}
-	r.Sample(c20Case{L: 2, P: 1, K: 50, Tail: 0b0001, Fill: ^uint64(0)})
-	r.Sample(c20Case{L: 14, P: 7, K: 1 << 63, Tail: 0b0101, Fill: ^uint64(0)})
+	r.Sample(c20Case{L: 2, P: 1, K: 50, Tail: 0b0001, Fill: ^uint64(0), Align: -1})
+	r.Sample(c20Case{L: 14, P: 7, K: 1 << 63, Tail: 0b0101, Fill: ^uint64(0), Align: 2, Roomy: true})
 	r.Cov["evaluations"] = evals
+	r.Cov["evaluations_in_placement_and_capacity_sweep"] = alignEvals
 	r.Cov["distinct_nontrivial"] = len(distinct)
-	r.Cov["rule"] = fmt.Sprintf("every even len 0..%d x every first-match position 0..len/2 x k in %v x all 16 {<k,>=k} patterns of the 4 key slots past the slice (distinct = (len,pos,tail) triples with len>0); oracle: Search == Naive and identical across tail patterns", maxL, ks)
+	r.Cov["rule"] = fmt.Sprintf("every even len 0..%d x every first-match position 0..len/2 x k in %v x all 16 {<k,>=k} patterns of the 4 key slots past the slice (distinct = (len,pos,tail) triples with len>0); oracle: Search == Naive and identical across tail patterns; second sweep (len up to 96, thorough 256): x 8 placements relative to a 64-byte line x {cap == len, cap > len} x 4 tail patterns", maxL, ks)
 	r.Cov["exhaustive"] = true
 	r.Assume = []string{"the kernel only compares keys with k (>= unsigned), so {k-1,k}-valued keys represent all contents", "amd64 assembly kernel is what runs on this machine"}
 }
